@@ -21,7 +21,7 @@ def run_one(drv, what, fam, seed, nops, maxlen, only=None, env=None):
     ops = os.path.join(d, "aops_" + tag)
     res = os.path.join(d, "ares_" + tag)
     r = subprocess.run([drv, what, fam, str(seed), str(nops), str(maxlen), ops, res], capture_output=True, text=True, env=e)
-    out = {"what": what, "fam": fam, "args": [what, fam, str(seed), str(nops), str(maxlen)], "exit": r.returncode}
+    out = {"what": what, "fam": fam, "args": [what, fam, str(seed), str(nops), str(maxlen)], "exit": r.returncode, "env": dict(env or {})}
     if r.returncode not in (0, 3) or not os.path.exists(res):
         out.update({"monitors": ["CRASH exit=%d %s" % (r.returncode, r.stderr[-200:])], "diffs": [], "ops": 0, "hist": {}, "crash": True, "impl_lines": []})
         return out
